@@ -883,7 +883,12 @@ class Shelxfile():
             ref = ShelxlRefine(self, self.resfile)
             ref.remove_acta_card(self.acta)
             self.write_shelx_file(filen + '.ins')
-            ref.run_shelxl(backup_before=backup_before)
+            try:
+                ref.run_shelxl(backup_before=backup_before)
+            except SystemExit:
+                # The run failed and nothing is read from disk: the model in memory gets its ACTA instruction back
+                ref.restore_acta_card()
+                raise
             # The result of the refinement is the res file, also if the model was read from the ins file:
             self.read_file(self.resfile.resolve().with_suffix('.res'))
             ref.restore_acta_card()
